@@ -1,0 +1,71 @@
+//! Public wrappers around crate-private pieces needed by the external verification harness
+//! (cargo feature `verif`). Forwarding only; no logic.
+#![allow(missing_docs, unreachable_pub, missing_debug_implementations, clippy::all)]
+
+pub use crate::scheduler::verif_api::{VContext, VCursor, VTxDependency, VWaitSlot};
+
+use crate::{
+    ParallelState,
+    parallel_state::{ParallelStateCommit, ParallelStateView},
+};
+use revm::{DatabaseCommit, DatabaseRef};
+use revm_primitives::{Address, B256, U256};
+use revm_state::{AccountInfo, Bytecode, EvmState};
+
+/// The worker-side view produced by `ParallelState::split_for_parallel`.
+pub struct VStateView<'a, DB>(ParallelStateView<'a, DB>);
+
+impl<DB> Clone for VStateView<'_, DB> {
+    fn clone(&self) -> Self {
+        *self
+    }
+}
+impl<DB> Copy for VStateView<'_, DB> {}
+
+/// The commit-side handle produced by `ParallelState::split_for_parallel`.
+pub struct VStateCommit<'a, DB>(ParallelStateCommit<'a, DB>);
+
+pub fn split_for_parallel<DB: DatabaseRef>(
+    state: &mut ParallelState<DB>,
+) -> (VStateView<'_, DB>, VStateCommit<'_, DB>) {
+    let (view, commit) = state.split_for_parallel();
+    (VStateView(view), VStateCommit(commit))
+}
+
+impl<DB: DatabaseRef> DatabaseRef for VStateView<'_, DB> {
+    type Error = DB::Error;
+    fn basic_ref(&self, address: Address) -> Result<Option<AccountInfo>, Self::Error> {
+        self.0.basic_ref(address)
+    }
+    fn code_by_hash_ref(&self, code_hash: B256) -> Result<Bytecode, Self::Error> {
+        self.0.code_by_hash_ref(code_hash)
+    }
+    fn storage_ref(&self, address: Address, index: U256) -> Result<U256, Self::Error> {
+        self.0.storage_ref(address, index)
+    }
+    fn block_hash_ref(&self, number: u64) -> Result<B256, Self::Error> {
+        self.0.block_hash_ref(number)
+    }
+}
+
+impl<DB: DatabaseRef> DatabaseRef for VStateCommit<'_, DB> {
+    type Error = DB::Error;
+    fn basic_ref(&self, address: Address) -> Result<Option<AccountInfo>, Self::Error> {
+        self.0.basic_ref(address)
+    }
+    fn code_by_hash_ref(&self, code_hash: B256) -> Result<Bytecode, Self::Error> {
+        self.0.code_by_hash_ref(code_hash)
+    }
+    fn storage_ref(&self, address: Address, index: U256) -> Result<U256, Self::Error> {
+        self.0.storage_ref(address, index)
+    }
+    fn block_hash_ref(&self, number: u64) -> Result<B256, Self::Error> {
+        self.0.block_hash_ref(number)
+    }
+}
+
+impl<DB: DatabaseRef> VStateCommit<'_, DB> {
+    pub fn commit(&mut self, evm_state: EvmState) {
+        self.0.commit(evm_state)
+    }
+}
